@@ -219,7 +219,8 @@ func (t *term) build() {
 
 var refNames = []string{"a", "b", "x-1.0", "MIT", "GPL-2.0-or-later", "A.b-c",
 	// names that look like other lexemes: operator words, words embedded between dots, license spellings with suffixes
-	"AND", "OR", "WITH", "and", "dual.or.commercial", "a.and.b", "x.with.y", "or", "MIT-or-later", "Apache-2.0-or-later", "Apache-2.0-only", "acme-eula", "ACME-EULA"}
+	"AND", "OR", "WITH", "and", "dual.or.commercial", "a.and.b", "x.with.y", "or", "MIT-or-later", "Apache-2.0-or-later", "Apache-2.0-only", "acme-eula", "ACME-EULA",
+	"v1", "v01", "1", "01", "99999999999999999999", "99999999999999999998"}
 var docNames = []string{"d", "e.1", "spdx-tool-1.2"}
 
 func genBaseID() string {
@@ -501,11 +502,22 @@ func siblingTerm(t *term) *term {
 			n.doc = strings.ToUpper(pick(docNames))
 		default:
 			n.ref = t.ref + "-x"
+			if rng.Intn(2) == 0 {
+				// numeric twins: names equal "as numbers" but not as strings (natural-order comparators, Atoi)
+				n.ref = pick([]string{"v1", "v01", "v001", "1", "01", "1.0", "1.00", "v10", "v9", "99999999999999999999", "99999999999999999998", "0x10", "16"})
+			}
 		}
 		n.build()
 		return n
 	}
 	n.base, n.suffix, n.plus, n.exc = t.base, t.suffix, t.plus, t.exc
+	if t.exc != "" && rng.Intn(4) == 0 {
+		// a reference whose TWO parts are this term's licence text and exception id (keys built from (first, second) pairs
+		// without the kind of the node): X WITH E  vs  DocumentRef-X:LicenseRef-E
+		r := &term{isRef: true, doc: t.base + t.suffix, ref: t.exc, caseMod: -1}
+		r.build()
+		return r
+	}
 	if rng.Intn(8) == 0 {
 		// a reference whose NAME is this term's own license text (the text then occurs twice in the expression, once inside a
 		// LicenseRef- / DocumentRef- id)
@@ -884,7 +896,8 @@ func itoa(i int) string {
 // ASCII letters (U+017F -> s, U+212A -> k), runes whose lower/upper-casing changes the byte length (U+023A, U+023E,
 // U+0130, U+00DF), letters and digits outside ASCII, the white space that TrimSpace / Fields / \s accept but the scanner
 // does not, and bytes that are not UTF-8 at all
-var oddRunes = []string{"\u017f", "\u212a", "\u023a", "\u023e", "\u0130", "\u0131", "\u00df", "\u00e9", "\u041c", "\uff11", "\u0660",
+var oddRunes = []string{"!", "_", "?", "/", "*", "~", "#", ",", ";", "=", "[", "\\", "\"", "'",
+	"\u017f", "\u212a", "\u023a", "\u023e", "\u0130", "\u0131", "\u00df", "\u00e9", "\u041c", "\uff11", "\u0660",
 	"\u00a0", "\u200b", "\u2028", "\ufeff", "\t", "\n", "\r", "\v", "\f", "\x00", "\x7f", "\xff", "\xc3", "\x85"}
 
 // confusable: the word with its first / last s, S, k, K replaced by the non-ASCII rune that folds to it
@@ -950,6 +963,10 @@ func unicodeStream(nWords int) []string {
 			add(w + r + "-only")
 			add(w + r + "-or-later")
 			add(w + "-only" + r)
+			add(w + "-or-later" + r)
+			add(w + "-or-later" + r + " AND MIT")
+			add("(" + w + "-or-later" + r + ")")
+			add(w + "+" + r)
 			add(w + " " + r + " AND MIT")
 			add(w + r + "AND MIT")
 			add("LicenseRef-" + r)
@@ -991,4 +1008,4 @@ func whitespaceLists() [][]string {
 // specialWords: words with a meaning in SPDX documents, package metadata or programming that are no license ids
 var specialWords = []string{"NONE", "NOASSERTION", "none", "noassertion", "NoAssertion", "UNLICENSED", "UNKNOWN", "unknown", "Proprietary",
 	"Commercial", "Public-Domain", "PublicDomain", "SEE-LICENSE-IN-LICENSE", "null", "nil", "undefined", "true", "N-A", "TBD", "ANY", "ALL", "*",
-	"LicenseRef", "DocumentRef", "licenseref-", "WITH", "AND", "OR", "NOT", "and", "or", "with", "-", ".", "-only", "-or-later", "+"}
+	"LicenseRef", "DocumentRef", "licenseref-", "AdditionRef-x", "AdditionRef-MIT", "ExceptionRef-x", "LicenseRef-x-exception", "additionref-x", "WITH", "AND", "OR", "NOT", "and", "or", "with", "-", ".", "-only", "-or-later", "+"}
